@@ -15,6 +15,8 @@ import FsVerif.Model.Config
 import FsVerif.Proofs.PrioReq
 import FsVerif.Proofs.BufExtra
 import FsVerif.Proofs.SlotWake
+import FsVerif.Proofs.CBeltProc
+import FsVerif.Proofs.CBeltBind
 import FsVerif.Proofs.Fleet
 namespace FsVerif.Props.C20
 open FsVerif
@@ -128,6 +130,26 @@ theorem buf_store_never_raises_internally {s : BufStore} (h : BufStore.ReachD s)
 
 theorem fleet_store_never_raises_internally {s : FleetStore} (h : FleetStore.ReachD s) : s.b.crashed = false :=
   (FleetStore.reachD_kt h).core.alive
+
+/-- continuous conveyor store: `move_to_ready_items` never fails — in every reachable state (every API call, every kernel event,
+    interrupts / resumes and the state machine included) every live move process finds its item on the belt (`items.index(item)`) and the
+    overflow guard has room for it; and `_trigger_reserve_get` never runs past the ready list (the binding invariant).  What CAN make the
+    continuous conveyor give up is `_get_belt_pattern` raising its placement error on an accumulating belt (known finding KF-D29). -/
+theorem cbelt_arrival_never_fails (cfg : CCfg) (ops : List CBelt.Op) :
+    let s := CBelt.run (CBelt.init cfg) ops
+    ∀ p ∈ s.procs, ∃ e, s.items.find? (fun e => e.seq == p.q) = some e ∧ s.ready.length + (s.items.erase e).length < s.cfg.cap := by
+  intro s p hp
+  have hpi : CBelt.PI s := CBelt.run_pi ops _ (CBelt.init_pi cfg)
+  have hrc : CBelt.RC s := CBelt.run_rc ops _ (CBelt.init_rc cfg)
+  exact CBelt.arrive_ok hpi hrc.room (hpi p hp)
+
+theorem cbelt_trigger_get_in_range (cfg : CCfg) (ops : List CBelt.Op) :
+    let s := CBelt.run (CBelt.init cfg) ops
+    s.getRes.length < s.ready.length → ∃ e, s.ready[s.resEv.length]? = some e := by
+  intro s hlt
+  have hb : CBelt.Bd s := CBelt.run_bd ops _ (CBelt.init_bd cfg)
+  have hk : s.resEv.length < s.ready.length := by rw [hb.ev.length_eq]; exact hlt
+  exact ⟨s.ready[s.resEv.length], List.getElem?_eq_getElem hk⟩
 
 example : validate {} = .ok := by decide
 example : validate { cap := .zero } = .rejected .construction .value := by decide
